@@ -57,7 +57,9 @@ def plan(tier):
     nh, ph = (4, 150) if tier == "quick" else (16, 1200)
     shards += [{"kind": "hyp", "name": f"viewvhdl{i}", "examples": ph, "gen": "viewvhdl"} for i in range(nh)]
     # coverage-guided: libFuzzer bytes decoded by the same history strategy (cv/harness/fuzz.py)
-    nf, pf = (1, 4000) if tier == "quick" else (8, 100000)
+    # (each history creates new classes in cohdl's caches, so the process grows with the number of executions; 40 000 stay
+    # well below the rss limit given to libFuzzer in cv/harness/fuzz.py)
+    nf, pf = (1, 4000) if tier == "quick" else (8, 40000)
     shards += [{"kind": "fuzz", "name": f"fuzzhist{i}", "runs": pf, "max_len": 4096} for i in range(nf)]
     return shards
 
